@@ -77,7 +77,7 @@ func runC07(c c07Case, rng *rand.Rand, r *rep.Report) (key, msg string, stats ma
 			so.SetPingInterval(PI)
 			so.SetPingTimeout(PT)
 			w := rig.NewWorld(rig.Options{Server: so})
-			defer w.Shutdown()
+			defer w.Finish()
 			cfg := rig.ClientCfg{Rev: c.Rev, Transport: c.Transport, NoAutoPong: true}
 			cl, err := w.Connect(cfg)
 			rig.Wait()
@@ -404,7 +404,7 @@ func runC07Direction(mode string, rev int, transport string, r *rep.Report) (key
 			so.SetPingInterval(10 * time.Second)
 			so.SetPingTimeout(5 * time.Second)
 			w := rig.NewWorld(rig.Options{Server: so})
-			defer w.Shutdown()
+			defer w.Finish()
 			canary, err := w.Connect(rig.ClientCfg{Rev: 4, Transport: "websocket"})
 			if err != nil {
 				key, msg = "c07-handshake-failed", err.Error()
@@ -478,7 +478,7 @@ func runC07Closing(rev int, PI, PT time.Duration, r *rep.Report) (key, msg strin
 		so.SetPingInterval(PI)
 		so.SetPingTimeout(PT)
 		w := rig.NewWorld(rig.Options{Server: so})
-		defer w.Shutdown()
+		defer w.Finish()
 		cl, err := w.Connect(rig.ClientCfg{Rev: rev, Transport: "polling", NoAutoPong: true})
 		rig.Wait()
 		sock := w.Socket(0)
